@@ -84,6 +84,10 @@ class TCPOptions:
                 quirks |= Quirk.OPT_BAD
                 break
 
+            if option_length < 2:  # Option can't be shorter than its kind + length bytes
+                quirks |= Quirk.OPT_BAD
+                break
+
             if option_number == TCPOption.SACK:
                 # SACK is a variable-length option of 10 to 34 bytes.
                 if not 10 <= option_length <= 34:
